@@ -163,6 +163,20 @@ const HierXML = `<?xml version="1.0" encoding="UTF-8"?>
   </application>
 </diameter>`
 
+// HierLateXML1 and HierLateXML2 are HierXML cut in two and loaded in the order an
+// application that grows its dictionary at run time may use: the child applications (and
+// base) first, their parent applications 1 and 4 afterwards. What a code means in a message
+// of a child application is decided by the dictionary as it is when the message is read.
+var HierLateXML1, HierLateXML2 = func() (string, string) {
+	cut := func(id string) string {
+		i := strings.Index(HierXML, `  <application id="`+id+`"`)
+		j := strings.Index(HierXML[i:], "</application>\n") + i + len("</application>\n")
+		return HierXML[i:j]
+	}
+	head, tail := `<?xml version="1.0" encoding="UTF-8"?>`+"\n<diameter>\n", "</diameter>"
+	return head + cut("0") + cut("16777251") + cut("16777238") + tail, head + cut("1") + cut("4") + tail
+}()
+
 // GenXML2 is GenXML with the names of two pairs of AVPs exchanged (the codes and
 // types stay): the same name means another code than in GenXML.
 var GenXML2 = func() string {
